@@ -39,4 +39,9 @@ CHECKS = {
                      'regenerated from conditions.py for 1..4 opaque sub-conditions x 1..4 inputs; concrete class tuples column by column; '
                      'NoCondition identity; output-unit selection; the constructor refuses exactly the classes overriding enforce '
                      '(class table regenerated from the source)'),
+    'C02': dict(engine=ENGINE_A, technique=TECH_A, note=NOTE_A + '; irregular domain: R-level spline model tied to the regenerated 4/5-point terms, numpy equation_weights tied by the spied linear systems only, np.linalg.solve a hypothesis', ref='DESIGN.md section 7 C02',
+                text='for every network and boundary data derived from an arbitrary field G: the rectangle condition equals G at every point '
+                     'of all four edges (either orientation); IBVP1D reproduces the initial profile for all x and the value or x-derivative '
+                     'at both ends for all t in the four DD/DN/ND/NN modes; thin-plate-spline model for any number of control points: the '
+                     'enforced function equals the prescribed value at every control point whenever the coefficients solve the fitted rows'),
 }
